@@ -8,6 +8,7 @@ import (
 	"go/types"
 	"hash/fnv"
 	"math/bits"
+	"sync"
 	"sync/atomic"
 
 	"golang.org/x/tools/go/ssa"
@@ -59,10 +60,17 @@ type Layout struct {
 }
 
 type Layouts struct {
-	m typeutil.Map
+	m  typeutil.Map
+	mu sync.Mutex
 }
 
 func (ls *Layouts) Of(t types.Type) *Layout {
+	ls.mu.Lock()
+	defer ls.mu.Unlock()
+	return ls.of(t)
+}
+
+func (ls *Layouts) of(t types.Type) *Layout {
 	if v := ls.m.At(t); v != nil {
 		return v.(*Layout)
 	}
@@ -71,7 +79,7 @@ func (ls *Layouts) Of(t types.Type) *Layout {
 	case *types.Struct:
 		l.FOffs = make([]int, u.NumFields())
 		for i := 0; i < u.NumFields(); i++ {
-			fl := ls.Of(u.Field(i).Type())
+			fl := ls.of(u.Field(i).Type())
 			l.FOffs[i] = l.Size
 			for _, p := range fl.Ptrs {
 				l.Ptrs = append(l.Ptrs, p+int32(l.Size))
@@ -80,7 +88,7 @@ func (ls *Layouts) Of(t types.Type) *Layout {
 			l.Size += fl.Size
 		}
 	case *types.Array:
-		el := ls.Of(u.Elem())
+		el := ls.of(u.Elem())
 		l.ESize = el.Size
 		n := int(u.Len())
 		l.Zero = make([]Value, 0, n*el.Size)
@@ -93,7 +101,7 @@ func (ls *Layouts) Of(t types.Type) *Layout {
 		}
 	case *types.Tuple:
 		for i := 0; i < u.Len(); i++ {
-			fl := ls.Of(u.At(i).Type())
+			fl := ls.of(u.At(i).Type())
 			l.FOffs = append(l.FOffs, l.Size)
 			l.Zero = append(l.Zero, fl.Zero...)
 			l.Size += fl.Size
@@ -194,11 +202,14 @@ func strHash(s string) uint64 {
 }
 
 var typeHashCache typeutil.Map
+var typeHashMu sync.Mutex
 
 func typeHash(t types.Type) uint64 {
 	if t == nil {
 		return 7
 	}
+	typeHashMu.Lock()
+	defer typeHashMu.Unlock()
 	if v := typeHashCache.At(t); v != nil {
 		return v.(uint64)
 	}
